@@ -34,6 +34,7 @@ RNil == [t |-> "nullbulk", b |-> <<>>, a |-> <<>>]
 RArr(a) == [t |-> "array", b |-> <<>>, a |-> a]
 RNilArr == [t |-> "nullarray", b |-> <<>>, a |-> <<>>]
 OK == RSimple(<<79, 75>>)
+RUnordered(S) == [t |-> "unordered", b |-> <<>>, a |-> S]
 ERR == RErr(<<69, 82, 82>>)
 WRONGTYPE == RErr(<<87, 82, 79, 78, 71, 84, 89, 80, 69>>)
 IsErr(r) == r.t = "error"
@@ -170,6 +171,36 @@ DoRename(c, st) ==
   ELSE IF c.nx /\ Has(st, c.k2) THEN Res(RInt(0), st)
   ELSE Res(IF c.nx THEN RInt(1) ELSE OK, Put(Drop(st, {c.k}), c.k2, st[c.k]))            \* [doc] value and TTL move; the target is overwritten
 DoDbSize(c, st) == Res(RInt(Cardinality(DOMAIN st)), st)
+
+(* KEYS pattern: Redis glob over the key bytes.  * any run, ? one byte, [..] class with ^ negation, a-z   *)
+(* ranges and \x escapes, \x the byte x itself.  c.pat = pattern bytes, c.kb = <<key, bytes>> pairs for   *)
+(* every key name the driver uses (keys are strings in the state; their bytes come with the command).    *)
+RECURSIVE ClassScan(_, _, _)
+ClassScan(p, k, ch) ==      \* from position k inside a class: [hit, next] (next = position after the closing bracket)
+  IF k > Len(p) THEN [hit |-> FALSE, next |-> k, closed |-> FALSE]
+  ELSE IF p[k] = 93 THEN [hit |-> FALSE, next |-> k + 1, closed |-> TRUE]
+  ELSE IF p[k] = 92 /\ k < Len(p) THEN
+         LET r == ClassScan(p, k + 2, ch) IN [r EXCEPT !.hit = r.hit \/ p[k + 1] = ch]
+  ELSE IF k + 2 <= Len(p) /\ p[k + 1] = 45 /\ p[k + 2] # 93 THEN
+         LET lo == IF p[k] <= p[k + 2] THEN p[k] ELSE p[k + 2]
+             hi == IF p[k] <= p[k + 2] THEN p[k + 2] ELSE p[k]
+             r == ClassScan(p, k + 3, ch) IN [r EXCEPT !.hit = r.hit \/ (lo <= ch /\ ch <= hi)]
+  ELSE LET r == ClassScan(p, k + 1, ch) IN [r EXCEPT !.hit = r.hit \/ p[k] = ch]
+RECURSIVE GlobAt(_, _, _, _)
+GlobAt(p, i, s, j) ==
+  IF i > Len(p) THEN j > Len(s)
+  ELSE IF p[i] = 42 THEN \E m \in j..(Len(s) + 1) : GlobAt(p, i + 1, s, m)
+  ELSE IF j > Len(s) THEN FALSE
+  ELSE IF p[i] = 63 THEN GlobAt(p, i + 1, s, j + 1)
+  ELSE IF p[i] = 92 /\ i < Len(p) THEN p[i + 1] = s[j] /\ GlobAt(p, i + 2, s, j + 1)
+  ELSE IF p[i] = 91 THEN
+         LET neg == i < Len(p) /\ p[i + 1] = 94
+             r == ClassScan(p, IF neg THEN i + 2 ELSE i + 1, s[j]) IN
+         r.closed /\ (r.hit # neg) /\ GlobAt(p, r.next, s, j + 1)
+  ELSE p[i] = s[j] /\ GlobAt(p, i + 1, s, j + 1)
+GlobMatch(p, s) == GlobAt(p, 1, s, 1)
+KeyBytes(c, k) == LET P == {i \in DOMAIN c.kb : c.kb[i][1] = k} IN IF P = {} THEN <<>> ELSE c.kb[CHOOSE i \in P : TRUE][2]
+DoKeys(c, st) == Res(RUnordered({RBulk(KeyBytes(c, k)) : k \in {j \in DOMAIN st : GlobMatch(c.pat, KeyBytes(c, j))}}), st)
 DoFlush(c, st) == Res(OK, Drop(st, DOMAIN st))
 
 ---------------------------------------------------------------------------
@@ -239,7 +270,6 @@ DoSRem(c, st) ==
 DoSIsMember(c, st) == IF Has(st, c.k) /\ st[c.k].t # "set" THEN Res(WRONGTYPE, st) ELSE Res(RInt(IF c.v \in SetOf(st, c.k) THEN 1 ELSE 0), st)
 DoSCard(c, st) == IF Has(st, c.k) /\ st[c.k].t # "set" THEN Res(WRONGTYPE, st) ELSE Res(RInt(Cardinality(SetOf(st, c.k))), st)
 (* unordered replies are returned as [t |-> "set", a |-> set of elements]; the judge compares as sets *)
-RUnordered(S) == [t |-> "unordered", b |-> <<>>, a |-> S]
 DoSMembers(c, st) == IF Has(st, c.k) /\ st[c.k].t # "set" THEN Res(WRONGTYPE, st) ELSE Res(RUnordered({RBulk(x) : x \in SetOf(st, c.k)}), st)
 
 ---------------------------------------------------------------------------
@@ -361,6 +391,7 @@ DoLive(c, st, now) ==
     [] c.op = "PTTL" -> DoPttl(c, st, now)     [] c.op = "TTL" -> DoTtl(c, st, now)
     [] c.op = "PERSIST" -> DoPersist(c, st)    [] c.op = "RENAME" -> DoRename(c, st)
     [] c.op = "DBSIZE" -> DoDbSize(c, st)      [] c.op = "FLUSHALL" -> DoFlush(c, st)
+    [] c.op = "KEYS" -> DoKeys(c, st)
     [] c.op = "PUSH" -> DoPush(c, st)          [] c.op = "POP" -> DoPop(c, st)
     [] c.op = "LLEN" -> DoLLen(c, st)          [] c.op = "LINDEX" -> DoLIndex(c, st)
     [] c.op = "LRANGE" -> DoLRange(c, st)      [] c.op = "LSET" -> DoLSet(c, st)
@@ -407,7 +438,7 @@ DevAlts(c, st, now) ==
   THEN {[id |-> "getset_keeps_ttl", res |-> Res(RBulk(live[c.k].v), Put(live, c.k, Entry("string", c.v, live[c.k].exp)))]}
   ELSE {}
 
-ReadOnlyOps == {"GET", "STRLEN", "MGET", "GETRANGE", "EXISTS", "TYPE", "PTTL", "TTL", "DBSIZE", "LLEN", "LINDEX", "LRANGE",
+ReadOnlyOps == {"KEYS", "GET", "STRLEN", "MGET", "GETRANGE", "EXISTS", "TYPE", "PTTL", "TTL", "DBSIZE", "LLEN", "LINDEX", "LRANGE",
                 "SISMEMBER", "SCARD", "SMEMBERS", "HGET", "HEXISTS", "HLEN", "HGETALL", "HKEYS", "HVALS",
                 "ZSCORE", "ZCARD", "ZRANK", "ZRANGE", "ZCOUNT", "ZRANGEBYSCORE", "PING", "ECHO"}
 
